@@ -180,9 +180,36 @@ Theorem C15_poly_partial_R : forall k n t (c0 : option (list R)) (s' : @ppspline
   forall x m, tn t (k - 1) <= x <= tn t n ->
     ppdnev_single xmul_num s' x m = Ok (Derive_n p m x).
 Proof. exact poly_partial_R. Qed.
-(* MISSING for the full C15_poly: the existence of c* for every polynomial of degree < k
-   (Marsden's identity).  Proved here only in degree 0 (C15_poly_const_hyp); polynomial data of
-   every degree < k is additionally TESTED by the correspondence run (labelled as a test). *)
+(* Marsden's identity on the piece polynomials, every order and knot sequence:
+   (x - tau)^(k-1) = Sigma_i psi_{i,k}(tau) B_{i,k}(x) with psi_{i,k}(tau) = Prod_{r=1..k-1} (t_{i+r} - tau) *)
+Theorem C15_marsden : forall (tf : nat -> R), (forall a b, (a <= b)%nat -> tf a <= tf b) ->
+  forall j, tf j < tf (S j) ->
+  forall k N x tau, (1 <= k)%nat -> (k - 1 <= j)%nat -> (j < N)%nat ->
+  sumf (fun i => psi tf k i tau * P tf j k i x) N = (x - tau) ^ (k - 1).
+Proof. exact marsden. Qed.
+
+(* Polynomial reproduction without the c* hypothesis, for every p(x) = Sigma_q a_q (x - tau_q)^(k-1)
+   (any finite list of (a_q, tau_q)): the solved spline on samples of p - values inside, the
+   requested derivatives at the two end sites - equals p and all its derivatives on the whole
+   domain, provided only that the collocation matrix is non-singular.
+   MISSING for the property as worded ("every polynomial of degree below the order"): that these
+   p exhaust the polynomials of degree < k (a spanning argument, not formalised).  Polynomial data
+   of every degree < k given by monomial coefficients is additionally TESTED by the correspondence
+   run (labelled as a test: the real code's values against the polynomial itself). *)
+Theorem C15_poly_marsden_partial : forall k n t (c0 : option (list R)) (s' : @ppspline R R) tau y l r
+    (q : list (R * R)),
+  admissible k n t ->
+  csolve xmul_num (mkPP k t c0 n) tau y l r false = Ok s' ->
+  (forall B, bsplmatrix (mkPP k t c0 n) tau l r = Ok B -> nonsingular n B) ->
+  (forall jx x, nth_error tau jx = Some x -> tn t (k - 1) <= x <= tn t n) ->
+  length y = length tau ->
+  (forall jx x, nth_error tau jx = Some x ->
+     nth_error y jx = Some (Derive_n (shifted_powers k q) (row_m l r (length tau) jx) x)) ->
+  forall x m, tn t (k - 1) <= x <= tn t n ->
+    ppdnev_single xmul_num s' x m = Ok (Derive_n (shifted_powers k q) m x).
+Proof. exact poly_marsden_R. Qed.
+
+(* degree 0 directly: the constants are reproduced by c* = (1, ..., 1) *)
 Theorem C15_poly_const_hyp : forall k n t, admissible k n t ->
   forall j, (k - 1 <= j <= n - 1)%nat -> tn t j < tn t (S j) ->
   forall x, dotR (map (fun i => P (tn t) j k i x) (seq 0 n)) (repeat 1 n) = 1.
@@ -210,4 +237,6 @@ Print Assumptions C15_abscissa_dual_spline.
 Print Assumptions C15_kind_table.
 Print Assumptions C15_poly_partial.
 Print Assumptions C15_poly_partial_R.
+Print Assumptions C15_marsden.
+Print Assumptions C15_poly_marsden_partial.
 Print Assumptions C15_poly_const_hyp.
